@@ -82,6 +82,11 @@ def gen_signal(rng, g, i=None, kinds=None):
                     rfi_type='stationary' if pk[5] == 's' else 'random_walk', seed=int(rng.integers(2 ** 31)))
     elif pk == 'sine':
         path.update(kind='sine', period=float(rng.uniform(2, 40)) * dt, amplitude=float(rng.uniform(0.5, 10)) * df)
+        if i is not None and stratum([0, 1, 2], 17) == 0:
+            # period handed over as a Quantity in minutes (r10_C01_1); the reference takes astropy's own conversion of that Quantity
+            from astropy import units as u
+            path['period_min'] = path['period'] / 60.0
+            path['period'] = float((path['period_min'] * u.min).to_value(u.s))
     else:
         path.update(kind=pk)
     pform = stratum(PATH_FORMS, 3)
@@ -94,6 +99,10 @@ def gen_signal(rng, g, i=None, kinds=None):
     if tk == 'sine':
         tprof.update(kind='sine', period=float(rng.uniform(2, 30)) * dt, phase=float(rng.uniform(0, 10)) * dt,
                      amplitude=float(rng.uniform(0, 1)))
+        if i is not None and stratum([0, 1, 2], 19) == 0:
+            from astropy import units as u
+            tprof['period_min'] = tprof['period'] / 60.0
+            tprof['period'] = float((tprof['period_min'] * u.min).to_value(u.s))
     elif tk.startswith('pgauss'):
         direction = tk.split('_')[1]
         tprof.update(kind='pgauss', pulse_width=float(rng.uniform(0.5, 4)) * dt, period=float(rng.uniform(3, 12)) * dt,
